@@ -188,6 +188,11 @@ class Executor3(Executor2):
             return self.exec_block(s.body, [st])
         if z3.is_false(c):
             return self.exec_block(s.orelse, [st])
+        k = self.known_by_path(st, c)
+        if k is True:
+            return self.exec_block(s.body, [st])
+        if k is False:
+            return self.exec_block(s.orelse, [st])
         s1 = st.copy()
         s1.assume(c)
         s2 = st.copy()
@@ -230,9 +235,7 @@ class Executor3(Executor2):
         if v.kind == "reflist":
             el, n, _, _ = self._rl(st, v)
             return SV("reflist", None, cls=v.cls, x=("value", el, n, self._owner_of(v)))
-        if self.lenient:
-            return self.opaque()
-        raise Unsupported("list() of %s" % v.kind)
+        return Executor2.bi_list(self, e, st)
 
     def ev_List(self, e, st):
         if not e.elts:
@@ -566,9 +569,20 @@ class Executor3(Executor2):
                 itv = None
             if itv is not None and itv.kind == "reflist":
                 return self.exec_for_reflist(s, st)
+            if itv is not None and itv.kind == "ref" and itv.cls is not None:
+                # `for x in obj`: obj.__iter__ yields the elements of a (ghost) reference list named by the suite
+                # (ASSUMED: e.g. iterating a Tree visits every node of the tree exactly once -- property C15)
+                for cname in self._mro(itv.cls):
+                    view = self.iter_views.get(cname)
+                    if view is not None:
+                        it = ast.copy_location(ast.Attribute(value=s.iter, attr=view, ctx=ast.Load()), s.iter)
+                        ast.fix_missing_locations(it)
+                        return self.exec_for_reflist(s, st, iter_expr=it)
         return Executor2.exec_loop(self, s, st)
 
-    def exec_for_reflist(self, s, st):
+    iter_views = {}
+
+    def exec_for_reflist(self, s, st, iter_expr=None):
         from . import frontend
         m, ci, fn = frontend.resolve(self.cur.target)
         loops = frontend.loops_in(fn)
@@ -581,7 +595,7 @@ class Executor3(Executor2):
         if not isinstance(s.target, ast.Name):
             raise Unsupported("for target at line %d" % s.lineno)
         tag = "loop%d@L%d" % (ordinal, s.lineno)
-        itv = self.ev(s.iter, st)
+        itv = self.ev(iter_expr if iter_expr is not None else s.iter, st)
         if itv.x[0] == "heap":
             # iterate over a snapshot; the sidecar must state (and we check at the back edge) that the
             # iterated list is not modified by the body
